@@ -14,6 +14,8 @@ import (
 	"github.com/sdcio/data-server/pkg/cache"
 	"github.com/sdcio/data-server/pkg/config"
 	"github.com/sdcio/data-server/pkg/datastore"
+	schemaClient "github.com/sdcio/data-server/pkg/datastore/clients/schema"
+	"github.com/sdcio/data-server/pkg/datastore/target"
 	"github.com/sdcio/data-server/pkg/server"
 	"github.com/sdcio/data-server/pkg/utils"
 	sdcpb "github.com/sdcio/sdc-protos/sdcpb"
@@ -72,7 +74,7 @@ func (c *c12) build() {
 	sort.Strings(leaves)
 	for _, l := range leaves {
 		for _, v := range c12Values[l] {
-			for _, f := range []string{"typed", "string", "json", "json_ietf"} {
+			for _, f := range []string{"typed", "string", "json", "json_ietf", "xml"} {
 				c.cases = append(c.cases, c12Case{l, v, f})
 			}
 		}
@@ -293,7 +295,7 @@ func (c *c12) interior(rng *core.Rng) c12Case {
 	leaves := []string{"i8", "i16", "i32", "i64", "u8", "u16", "u32", "u64", "d1", "d2", "d18", "un1", "un2", "pct", "str"}
 	l := leaves[rng.Intn(len(leaves))]
 	t := model.LeafTypes[l]
-	forms := []string{"typed", "string", "json", "json_ietf"}
+	forms := []string{"typed", "string", "json", "json_ietf", "xml"}
 	rnd := func(lo, hi string) string {
 		a, _ := new(big.Int).SetString(lo, 10)
 		b, _ := new(big.Int).SetString(hi, 10)
@@ -326,7 +328,7 @@ func (c *c12) interior(rng *core.Rng) c12Case {
 			v = rnd(r[0], r[1])
 		}
 	}
-	return c12Case{l, v, forms[rng.Intn(4)]}
+	return c12Case{l, v, forms[rng.Intn(5)]}
 }
 
 func (c *c12) RunCase(w *core.Worker, idx int, seed uint64, res *core.CaseResult) {
@@ -351,6 +353,10 @@ func (c *c12) RunCase(w *core.Worker, idx int, seed uint64, res *core.CaseResult
 		return
 	}
 	tkey := cs.leaf
+	if cs.form == "xml" {
+		c.xmlCase(idx, cs, t, want, desc, res)
+		return
+	}
 	c.h.pool = nil
 	run := c.h.start(rng, res, false, true)
 	defer run.close()
@@ -717,4 +723,79 @@ func (c *c12) adjacent(leaf, val string) string {
 		}
 	}
 	return step(t.Kind, val, t.FD)
+}
+
+// xmlCase: the value arrives as XML text in a NETCONF reply of the device (the production NETCONF target with a scripted
+// driver); what the adapter hands to the sync loop must denote the value the device sent. Integers are also sent with
+// leading zeros (a valid lexical form of the same number).
+func (c *c12) xmlCase(idx int, cs c12Case, t model.TypeDef, want, desc string, res *core.CaseResult) {
+	ctx := context.Background()
+	lex := []string{cs.val}
+	if isLL(cs.leaf) {
+		lex = strings.Split(strings.TrimPrefix(cs.val, "LL:"), ",")
+	}
+	isInt := func(k string) bool { return strings.HasPrefix(k, "int") || strings.HasPrefix(k, "uint") }
+	variant := "as is"
+	if isInt(t.Kind) && idx%2 == 1 {
+		variant = "leading zeros"
+		for i, v := range lex {
+			if strings.HasPrefix(v, "-") {
+				lex[i] = "-00" + v[1:]
+			} else {
+				lex[i] = "00" + v
+			}
+		}
+	}
+	doc := `<data><types xmlns="urn:verif:a">`
+	for _, v := range lex {
+		if t.Kind == "empty" {
+			doc += "<" + cs.leaf + "/>"
+		} else {
+			doc += "<" + cs.leaf + ">" + xmlEscape(v) + "</" + cs.leaf + ">"
+		}
+	}
+	if cs.leaf == "lr" {
+		doc += "<u16>" + cs.val + "</u16>"
+	}
+	doc += `</types></data>`
+	drv := fixture.NewFakeDrv()
+	drv.GetConfigDoc = doc
+	sbi := &config.SBI{Type: "netconf", Address: "127.0.0.1", Port: 1, ConnectRetry: time.Hour, Timeout: time.Second, Credentials: &config.Creds{Username: "u", Password: "p"},
+		NetconfOptions: &config.SBINetconfOptions{CommitDatastore: "candidate"}}
+	scb := schemaClient.NewSchemaClientBound(fixture.SchemaConfig().GetSchema(), c.h.env.Schema)
+	nct := target.NewNCTargetWithDriver("c12", sbi, scb, drv)
+	var rsp *sdcpb.GetDataResponse
+	var err error
+	if apiCall(res, "ncTarget.Get", func() {
+		rsp, err = nct.Get(ctx, &sdcpb.GetDataRequest{Name: "c12", Path: []*sdcpb.Path{mustPb("/types")}, Datastore: &sdcpb.DataStore{Type: sdcpb.Type_MAIN}})
+	}) {
+		return
+	}
+	what := fmt.Sprintf("%s (%s): reply %s", desc, variant, doc)
+	if err != nil {
+		res.Violate(fmt.Sprintf("C12/valid-value-refused/%s/xml", cs.leaf), "%s: refused: %v", what, err)
+		return
+	}
+	leafPath := model.Parse("/types/" + cs.leaf).String()
+	got := ""
+	found := false
+	for _, n := range rsp.GetNotification() {
+		for _, u := range n.GetUpdate() {
+			if model.FromPb(u.GetPath()).String() == leafPath {
+				got, found = model.TvString(u.GetValue()), true
+			}
+		}
+	}
+	res.Count("xml_replies", 1)
+	if !found {
+		res.Violate(fmt.Sprintf("C12/xml-input-lost/%s", cs.leaf), "%s: the adapter produced no update for the leaf", what)
+		return
+	}
+	if g, err := c.canon(cs.leaf, got); err != nil || g != want {
+		res.Violate(fmt.Sprintf("C12/xml-input-denotes-another-value/%s", cs.leaf), "%s: the adapter produced %q (want the datum %s)", what, got, want)
+	}
+}
+
+func xmlEscape(s string) string {
+	return strings.NewReplacer("&", "&amp;", "<", "&lt;", ">", "&gt;").Replace(s)
 }
